@@ -289,15 +289,30 @@ def _prepTgForSaving(
 ) -> Dict:
     _sortEntries(tg)
 
+    # A requested span applies to the textgrid and to its tiers (a tier whose
+    # own xmax stayed behind would end before its last, filled-in, interval)
     if minTimestamp is None:
         minTimestamp = tg["xmin"]
     else:
         tg["xmin"] = minTimestamp
+        for tier in tg["tiers"]:
+            tier["xmin"] = minTimestamp
 
     if maxTimestamp is None:
         maxTimestamp = tg["xmax"]
     else:
         tg["xmax"] = maxTimestamp
+        for tier in tg["tiers"]:
+            tier["xmax"] = maxTimestamp
+
+    if (
+        minTimestamp is not None
+        and maxTimestamp is not None
+        and float(minTimestamp) > float(maxTimestamp)
+    ):
+        raise errors.ParsingError(
+            "The min time specified for the textgrid is larger than the max time."
+        )
 
     # No entry may fall outside of the (possibly overridden) span of the textgrid
     for tier in tg["tiers"]:
